@@ -3,6 +3,7 @@ package wasp
 import (
 	"time"
 
+	"github.com/vx-labs/mqtt-protocol/packet"
 	"github.com/vx-labs/wasp/v4/wasp/distributed"
 )
 
@@ -32,7 +33,13 @@ func (n *nodeMemberManager) NotifyGossipLeave(id uint64) {
 	for _, session := range sessions {
 		lwt := session.LWT
 		if lwt != nil {
-			n.log.Append(lwt)
+			// the will is stored with the client's own topic name: publish it
+			// inside the session's mount point, like any publish of that session
+			n.log.Append(&packet.Publish{
+				Header:  lwt.Header,
+				Topic:   append([]byte(session.MountPoint+"/"), lwt.Topic...),
+				Payload: lwt.Payload,
+			})
 		}
 	}
 	go func() {
